@@ -3,8 +3,12 @@
 //! stream cuts, write back-pressure and byte tampering, and records every observable event
 //! (bytes offered/accepted, read_event results, handler callbacks, disconnects) as NDJSON for TLC
 //! trace validation against spec/TransportAbstract.tla. The engine contains no oracle.
+//! The raw peer can send one well-formed message of every wire message type ("classes", see
+//! `build_typed`); the PeerManager's channel, routing, onion and custom message handlers are recorders:
+//! a callback that is handed one message is logged as `delivered` (id / content read back from the
+//! message), every other message callback as `callback`.
 //!
-//! usage: transport --scripts FILE --out TRACE [--random N] [--rot N:MSGS] [--seed S]
+//! usage: transport --scripts FILE --out TRACE [--random N] [--rot N:MSGS] [--seed S] | --list-classes
 //!
 //! Sides: 1 = connection initiator (outbound), 2 = responder (inbound). Stream d is the byte
 //! stream written by side d (read by side 3-d). Message `size` = encoded length incl. the
@@ -12,13 +16,18 @@
 
 use bitcoin::constants::ChainHash;
 use bitcoin::secp256k1::{PublicKey, Secp256k1, SecretKey};
-use lightning::ln::msgs::{self, BaseMessageHandler, ChannelMessageHandler, Init, LightningError, MessageSendEvent};
+use lightning::ln::msgs::{
+	self, BaseMessageHandler, ChannelMessageHandler, Init, LightningError, MessageSendEvent, OnionMessageHandler,
+	RoutingMessageHandler,
+};
 use lightning::ln::peer_handler::{
 	CustomMessageHandler, IgnoringMessageHandler, MessageHandler, PeerManager, SocketDescriptor,
 };
 use lightning::ln::types::ChannelId;
 use lightning::ln::wire::{CustomMessageReader, Type};
-use lightning::types::features::{InitFeatures, NodeFeatures};
+use lightning::routing::gossip::{NodeAlias, NodeId};
+use lightning::types::features::{ChannelFeatures, InitFeatures, NodeFeatures};
+use lightning::types::payment::{PaymentHash, PaymentPreimage};
 use lightning::util::logger::{Logger, Record};
 use lightning::util::ser::{LengthLimitedRead, Writeable, Writer};
 use lightning::util::test_utils::TestNodeSigner;
@@ -26,7 +35,11 @@ use lightning::verif::transport::{MessageBuf, PeerChannelEncryptor};
 use rand::rngs::StdRng;
 use rand::{Rng, SeedableRng};
 use serde_json::{json, Value};
-use std::collections::VecDeque;
+use bitcoin::hashes::Hash;
+use bitcoin::secp256k1::ecdsa::Signature;
+use bitcoin::secp256k1::Message as SecpMessage;
+use bitcoin::{ScriptBuf, Txid};
+use std::collections::{BTreeSet, VecDeque};
 use std::panic::{catch_unwind, AssertUnwindSafe};
 use std::sync::{Arc, Mutex};
 use vharness::trace::TraceWriter;
@@ -152,6 +165,388 @@ fn chan_ready(id: u64) -> msgs::ChannelReady {
 	msgs::ChannelReady { channel_id: ChannelId(cid), next_per_commitment_point: chan_point(), short_channel_id_alias: None }
 }
 
+// ------------------------------------------------------------------------------ message classes
+//
+// One well-formed message per wire message type. `build_typed(cls, id)` is the complete encoding
+// (two-byte type included); the id is embedded in the message so that the recording handlers can
+// report which message they were given and whether its content is the one that was sent.
+
+/// classes that are handed to exactly one handler callback once the peer's Init has been received
+const DELIVERABLE: &[&str] = &[
+	"custom", "open_channel", "open_channel_v2", "accept_channel", "accept_channel_v2", "funding_created",
+	"funding_signed", "channel_ready", "peer_storage", "peer_storage_retrieval", "shutdown", "closing_signed", "stfu",
+	"splice_init", "splice_ack", "splice_locked", "tx_add_input", "tx_add_output", "tx_remove_input",
+	"tx_remove_output", "tx_complete", "tx_signatures", "tx_init_rbf", "tx_ack_rbf", "tx_abort", "update_add_htlc",
+	"update_fulfill_htlc", "update_fail_htlc", "update_fail_malformed_htlc", "commitment_signed", "revoke_and_ack",
+	"update_fee", "channel_reestablish", "announcement_signatures", "channel_announcement", "node_announcement",
+	"channel_update", "query_short_channel_ids", "reply_short_channel_ids_end", "query_channel_range",
+	"reply_channel_range", "onion_message",
+];
+/// classes without a one-to-one callback (answered, ignored, batched or a reason to disconnect)
+const NODELIVER: &[&str] = &[
+	"ping", "ping_nopong", "pong", "warning", "error_chan", "error_all", "start_batch", "gossip_timestamp_filter",
+	"unknown_odd", "unknown_even",
+];
+const UNKNOWN_ODD: u16 = 30001;
+const UNKNOWN_EVEN: u16 = 30000;
+
+fn idb(id: u64, fill: u8) -> [u8; 32] {
+	let mut b = [fill; 32];
+	b[..8].copy_from_slice(&id.to_le_bytes());
+	b
+}
+fn cid(id: u64) -> ChannelId {
+	ChannelId(idb(id, 0xc5))
+}
+fn chain(id: u64) -> ChainHash {
+	ChainHash::from(idb(id, 0x6f))
+}
+fn txid(id: u64) -> Txid {
+	Txid::from_byte_array(idb(id, 0x7d))
+}
+fn some_sig() -> Signature {
+	let secp = Secp256k1::new();
+	secp.sign_ecdsa(&SecpMessage::from_digest([0x33; 32]), &SecretKey::from_slice(&[9u8; 32]).unwrap())
+}
+fn enc_of<M: Type>(m: &M) -> Vec<u8> {
+	let mut v = m.type_id().to_be_bytes().to_vec();
+	v.extend_from_slice(&m.encode());
+	v
+}
+fn open_common(id: u64) -> msgs::CommonOpenChannelFields {
+	let pk = chan_point();
+	msgs::CommonOpenChannelFields {
+		chain_hash: chain(1),
+		temporary_channel_id: cid(id),
+		funding_satoshis: 100_000,
+		dust_limit_satoshis: 546,
+		max_htlc_value_in_flight_msat: 50_000_000,
+		htlc_minimum_msat: 1,
+		commitment_feerate_sat_per_1000_weight: 253,
+		to_self_delay: 144,
+		max_accepted_htlcs: 30,
+		funding_pubkey: pk,
+		revocation_basepoint: pk,
+		payment_basepoint: pk,
+		delayed_payment_basepoint: pk,
+		htlc_basepoint: pk,
+		first_per_commitment_point: pk,
+		channel_flags: 0,
+		shutdown_scriptpubkey: None,
+		channel_type: None,
+	}
+}
+fn accept_common(id: u64) -> msgs::CommonAcceptChannelFields {
+	let pk = chan_point();
+	msgs::CommonAcceptChannelFields {
+		temporary_channel_id: cid(id),
+		dust_limit_satoshis: 546,
+		max_htlc_value_in_flight_msat: 50_000_000,
+		htlc_minimum_msat: 1,
+		minimum_depth: 3,
+		to_self_delay: 144,
+		max_accepted_htlcs: 30,
+		funding_pubkey: pk,
+		revocation_basepoint: pk,
+		payment_basepoint: pk,
+		delayed_payment_basepoint: pk,
+		htlc_basepoint: pk,
+		first_per_commitment_point: pk,
+		shutdown_scriptpubkey: None,
+		channel_type: None,
+	}
+}
+fn commitment_signed(id: u64) -> msgs::CommitmentSigned {
+	msgs::CommitmentSigned { channel_id: cid(id), signature: some_sig(), htlc_signatures: vec![some_sig()], funding_txid: None }
+}
+
+/// the complete encoding of the message of class `cls` carrying `id` (None: unknown class)
+fn build_typed(cls: &str, id: u64) -> Option<Vec<u8>> {
+	let pk = chan_point();
+	let sig = some_sig();
+	let nid = NodeId::from_pubkey(&pk);
+	let script = ScriptBuf::from_bytes(vec![0x00, 0x14, 1, 2, 3, 4, 5, 6, 7, 8, 9, 10, 11, 12, 13, 14, 15, 16, 17, 18, 19, 20]);
+	Some(match cls {
+		"open_channel" => enc_of(&msgs::OpenChannel { common_fields: open_common(id), push_msat: 7, channel_reserve_satoshis: 1000 }),
+		"open_channel_v2" => enc_of(&msgs::OpenChannelV2 {
+			common_fields: open_common(id),
+			funding_feerate_sat_per_1000_weight: 300,
+			locktime: 5,
+			second_per_commitment_point: pk,
+			require_confirmed_inputs: None,
+			disable_channel_reserve: None,
+		}),
+		"accept_channel" => enc_of(&msgs::AcceptChannel { common_fields: accept_common(id), channel_reserve_satoshis: 1000 }),
+		"accept_channel_v2" => enc_of(&msgs::AcceptChannelV2 {
+			common_fields: accept_common(id),
+			funding_satoshis: 90_000,
+			second_per_commitment_point: pk,
+			require_confirmed_inputs: None,
+			disable_channel_reserve: None,
+		}),
+		"funding_created" => enc_of(&msgs::FundingCreated {
+			temporary_channel_id: cid(id),
+			funding_txid: txid(3),
+			funding_output_index: 1,
+			signature: sig,
+		}),
+		"funding_signed" => enc_of(&msgs::FundingSigned { channel_id: cid(id), signature: sig }),
+		"channel_ready" => enc_of(&chan_ready(id)),
+		"peer_storage" => enc_of(&msgs::PeerStorage { data: idb(id, 0x51).to_vec() }),
+		"peer_storage_retrieval" => enc_of(&msgs::PeerStorageRetrieval { data: idb(id, 0x52).to_vec() }),
+		"shutdown" => enc_of(&msgs::Shutdown { channel_id: cid(id), scriptpubkey: script }),
+		"closing_signed" => enc_of(&msgs::ClosingSigned {
+			channel_id: cid(id),
+			fee_satoshis: 500,
+			signature: sig,
+			fee_range: Some(msgs::ClosingSignedFeeRange { min_fee_satoshis: 100, max_fee_satoshis: 900 }),
+		}),
+		"stfu" => enc_of(&msgs::Stfu { channel_id: cid(id), initiator: true }),
+		"splice_init" => enc_of(&msgs::SpliceInit {
+			channel_id: cid(id),
+			funding_contribution_satoshis: -5,
+			funding_feerate_per_kw: 300,
+			locktime: 9,
+			funding_pubkey: pk,
+			require_confirmed_inputs: None,
+		}),
+		"splice_ack" => enc_of(&msgs::SpliceAck {
+			channel_id: cid(id),
+			funding_contribution_satoshis: 5,
+			funding_pubkey: pk,
+			require_confirmed_inputs: None,
+		}),
+		"splice_locked" => enc_of(&msgs::SpliceLocked { channel_id: cid(id), splice_txid: txid(4) }),
+		"tx_add_input" => enc_of(&msgs::TxAddInput {
+			channel_id: cid(id),
+			serial_id: 4,
+			prevtx: None,
+			prevtx_out: 1,
+			sequence: 0xffff_fffd,
+			shared_input_txid: Some(txid(5)),
+		}),
+		"tx_add_output" => enc_of(&msgs::TxAddOutput { channel_id: cid(id), serial_id: 6, sats: 1234, script }),
+		"tx_remove_input" => enc_of(&msgs::TxRemoveInput { channel_id: cid(id), serial_id: 4 }),
+		"tx_remove_output" => enc_of(&msgs::TxRemoveOutput { channel_id: cid(id), serial_id: 6 }),
+		"tx_complete" => enc_of(&msgs::TxComplete { channel_id: cid(id) }),
+		"tx_signatures" => enc_of(&msgs::TxSignatures {
+			channel_id: cid(id),
+			tx_hash: txid(6),
+			witnesses: vec![],
+			shared_input_signature: None,
+		}),
+		"tx_init_rbf" => enc_of(&msgs::TxInitRbf {
+			channel_id: cid(id),
+			locktime: 3,
+			feerate_sat_per_1000_weight: 500,
+			funding_output_contribution: Some(77),
+		}),
+		"tx_ack_rbf" => enc_of(&msgs::TxAckRbf { channel_id: cid(id), funding_output_contribution: Some(78) }),
+		"tx_abort" => enc_of(&msgs::TxAbort { channel_id: cid(id), data: vec![1, 2, 3] }),
+		"update_add_htlc" => enc_of(&msgs::UpdateAddHTLC {
+			channel_id: cid(id),
+			htlc_id: 3,
+			amount_msat: 10_000,
+			payment_hash: PaymentHash([0x11; 32]),
+			cltv_expiry: 500_000,
+			skimmed_fee_msat: None,
+			onion_routing_packet: msgs::OnionPacket { version: 0, public_key: Ok(pk), hop_data: [0x5a; 1300], hmac: [0x5b; 32] },
+			blinding_point: None,
+			hold_htlc: None,
+			accountable: None,
+		}),
+		"update_fulfill_htlc" => enc_of(&msgs::UpdateFulfillHTLC {
+			channel_id: cid(id),
+			htlc_id: 3,
+			payment_preimage: PaymentPreimage([0x12; 32]),
+			attribution_data: None,
+		}),
+		// (fields of these two are crate-private: encoded by hand)
+		"update_fail_htlc" => {
+			let mut v = 131u16.to_be_bytes().to_vec();
+			v.extend_from_slice(&cid(id).0);
+			v.extend_from_slice(&3u64.to_be_bytes());
+			v.extend_from_slice(&4u16.to_be_bytes());
+			v.extend_from_slice(&[0xde, 0xad, 0xbe, 0xef]);
+			v
+		},
+		"update_fail_malformed_htlc" => {
+			let mut v = 135u16.to_be_bytes().to_vec();
+			v.extend_from_slice(&cid(id).0);
+			v.extend_from_slice(&3u64.to_be_bytes());
+			v.extend_from_slice(&[0x13; 32]);
+			v.extend_from_slice(&0xc005u16.to_be_bytes());
+			v
+		},
+		"commitment_signed" => enc_of(&commitment_signed(id)),
+		"revoke_and_ack" => enc_of(&msgs::RevokeAndACK {
+			channel_id: cid(id),
+			per_commitment_secret: [0x14; 32],
+			next_per_commitment_point: pk,
+			release_htlc_message_paths: Vec::new(),
+		}),
+		"update_fee" => enc_of(&msgs::UpdateFee { channel_id: cid(id), feerate_per_kw: 1000 }),
+		"channel_reestablish" => enc_of(&msgs::ChannelReestablish {
+			channel_id: cid(id),
+			next_local_commitment_number: 3,
+			next_remote_commitment_number: 2,
+			your_last_per_commitment_secret: [0x15; 32],
+			my_current_per_commitment_point: pk,
+			next_funding: None,
+			my_current_funding_locked: None,
+		}),
+		"announcement_signatures" => enc_of(&msgs::AnnouncementSignatures {
+			channel_id: cid(id),
+			short_channel_id: 42,
+			node_signature: sig,
+			bitcoin_signature: sig,
+		}),
+		"channel_announcement" => enc_of(&msgs::ChannelAnnouncement {
+			node_signature_1: sig,
+			node_signature_2: sig,
+			bitcoin_signature_1: sig,
+			bitcoin_signature_2: sig,
+			contents: msgs::UnsignedChannelAnnouncement {
+				features: ChannelFeatures::empty(),
+				chain_hash: chain(id),
+				short_channel_id: 43,
+				node_id_1: nid,
+				node_id_2: nid,
+				bitcoin_key_1: nid,
+				bitcoin_key_2: nid,
+				excess_data: Vec::new(),
+			},
+		}),
+		"node_announcement" => enc_of(&msgs::NodeAnnouncement {
+			signature: sig,
+			contents: msgs::UnsignedNodeAnnouncement {
+				features: NodeFeatures::empty(),
+				timestamp: 1_700_000_000,
+				node_id: nid,
+				rgb: [1, 2, 3],
+				alias: NodeAlias(idb(id, 0x61)),
+				addresses: Vec::new(),
+				excess_address_data: Vec::new(),
+				excess_data: Vec::new(),
+			},
+		}),
+		"channel_update" => enc_of(&msgs::ChannelUpdate {
+			signature: sig,
+			contents: msgs::UnsignedChannelUpdate {
+				chain_hash: chain(id),
+				short_channel_id: 43,
+				timestamp: 1_700_000_000,
+				message_flags: 1,
+				channel_flags: 0,
+				cltv_expiry_delta: 40,
+				htlc_minimum_msat: 1,
+				htlc_maximum_msat: 50_000_000,
+				fee_base_msat: 1000,
+				fee_proportional_millionths: 100,
+				excess_data: Vec::new(),
+			},
+		}),
+		"query_short_channel_ids" => enc_of(&msgs::QueryShortChannelIds { chain_hash: chain(id), short_channel_ids: vec![43, 44] }),
+		"reply_short_channel_ids_end" => enc_of(&msgs::ReplyShortChannelIdsEnd { chain_hash: chain(id), full_information: true }),
+		"query_channel_range" => enc_of(&msgs::QueryChannelRange { chain_hash: chain(id), first_blocknum: 100, number_of_blocks: 50 }),
+		"reply_channel_range" => enc_of(&msgs::ReplyChannelRange {
+			chain_hash: chain(id),
+			first_blocknum: 100,
+			number_of_blocks: 50,
+			sync_complete: true,
+			short_channel_ids: vec![43],
+		}),
+		"onion_message" => enc_of(&msgs::OnionMessage {
+			blinding_point: pk,
+			onion_routing_packet: lightning::onion_message::packet::Packet {
+				version: 0,
+				public_key: pk,
+				hop_data: idb(id, 0x71).to_vec(),
+				hmac: [0x72; 32],
+			},
+		}),
+		// ---- no one-to-one callback
+		"ping" => enc_of(&msgs::Ping { ponglen: 0, byteslen: 0 }),
+		"ping_nopong" => enc_of(&msgs::Ping { ponglen: 65532, byteslen: 3 }),
+		"pong" => enc_of(&msgs::Pong { byteslen: 2 }),
+		"warning" => enc_of(&msgs::WarningMessage { channel_id: cid(id), data: "w".to_string() }),
+		"error_chan" => enc_of(&msgs::ErrorMessage { channel_id: cid(id), data: "e".to_string() }),
+		"error_all" => enc_of(&msgs::ErrorMessage { channel_id: ChannelId::new_zero(), data: "e".to_string() }),
+		"start_batch" => enc_of(&msgs::StartBatch { channel_id: cid(id), batch_size: 2, message_type: Some(132) }),
+		"gossip_timestamp_filter" => enc_of(&msgs::GossipTimestampFilter { chain_hash: chain(id), first_timestamp: 5, timestamp_range: 6 }),
+		"unknown_odd" => {
+			let mut v = UNKNOWN_ODD.to_be_bytes().to_vec();
+			v.extend_from_slice(&idb(id, 0x73));
+			v
+		},
+		"unknown_even" => {
+			let mut v = UNKNOWN_EVEN.to_be_bytes().to_vec();
+			v.extend_from_slice(&idb(id, 0x74));
+			v
+		},
+		_ => return None,
+	})
+}
+
+/// where the id sits in the encoding of a deliverable class (offset, little endian 8 bytes)
+fn id_offset(cls: &str) -> usize {
+	match cls {
+		"open_channel" | "open_channel_v2" => 2 + 32,
+		"peer_storage" | "peer_storage_retrieval" => 2 + 2,
+		"channel_announcement" => 2 + 4 * 64 + 2,
+		"node_announcement" => 2 + 64 + 2 + 4 + 33 + 3,
+		"channel_update" => 2 + 64,
+		"onion_message" => 2 + 33 + 2 + 1 + 33,
+		_ => 2,
+	}
+}
+fn id_of(cls: &str, enc: &[u8]) -> u64 {
+	let o = id_offset(cls);
+	if enc.len() < o + 8 {
+		return u64::MAX;
+	}
+	let mut b = [0u8; 8];
+	b.copy_from_slice(&enc[o..o + 8]);
+	u64::from_le_bytes(b)
+}
+
+/// Driver sanity (not a judgement of the property): every class is a message the library decodes
+/// as the intended type and re-encodes to the same bytes, and its id can be read back.
+/// (It depends on the decoder under test, so it is only reported in the summary; the check treats it
+/// as a tool error when the trace validation found nothing.)
+fn check_classes() -> Vec<String> {
+	let mut errs = Vec::new();
+	for cls in DELIVERABLE.iter().chain(NODELIVER.iter()) {
+		if *cls == "custom" {
+			continue;
+		}
+		let b = match build_typed(cls, 4242) {
+			Some(b) => b,
+			None => {
+				errs.push(format!("class {} has no builder", cls));
+				continue;
+			},
+		};
+		let ty = u16::from_be_bytes([b[0], b[1]]);
+		match catch_unwind(|| lightning::verif::codec::wire_read(&b)) {
+			Ok(Ok((t, _, re))) => {
+				if t != ty {
+					errs.push(format!("class {} decodes as type {}", cls, t));
+				}
+				if !cls.starts_with("unknown") && re != b {
+					errs.push(format!("class {} does not re-encode to itself", cls));
+				}
+			},
+			Ok(Err(e)) => errs.push(format!("class {} does not decode: {:?}", cls, e)),
+			Err(_) => errs.push(format!("class {}: decoder panicked", cls)),
+		}
+		if DELIVERABLE.contains(cls) && id_of(cls, &b) != 4242 {
+			errs.push(format!("class {}: id not at the expected offset", cls));
+		}
+	}
+	errs
+}
+
 #[derive(Clone)]
 struct Pending {
 	id: u64,
@@ -167,14 +562,27 @@ struct Handler {
 	pending: Mutex<VecDeque<Pending>>,
 	peer: Mutex<Option<PublicKey>>, // set between peer_connected and peer_disconnected
 	handed: Mutex<Vec<Pending>>,    // everything handed to the PeerManager, in order
+	junk_types: Mutex<BTreeSet<u16>>, // wire types of the arbitrary-content frames the raw peer sent to this side
 }
 impl Handler {
 	fn new(side: usize, ctx: Ctx) -> Handler {
-		Handler { side, ctx, pending: Mutex::new(VecDeque::new()), peer: Mutex::new(None), handed: Mutex::new(Vec::new()) }
+		Handler { side, ctx, pending: Mutex::new(VecDeque::new()), peer: Mutex::new(None), handed: Mutex::new(Vec::new()), junk_types: Mutex::new(BTreeSet::new()) }
 	}
-	fn other(&self, what: &str) {
-		// a message we never sent reached a handler
-		self.ctx.ev(json!({"ev":"delivered","s":self.side,"id":-1,"size":0,"ok":false,"what":what}));
+	/// a handler was given the message `enc` (complete encoding) of class `cls`
+	fn deliver(&self, what: &str, cls: &str, enc: Vec<u8>) {
+		let id = id_of(cls, &enc);
+		let ok = id < 32000 && build_typed(cls, id).map(|b| b == enc).unwrap_or(false);
+		if !ok && enc.len() >= 2 && self.junk_types.lock().unwrap().contains(&u16::from_be_bytes([enc[0], enc[1]])) {
+			// one of the raw peer's arbitrary-content frames of this type happened to decode: not a test message
+			self.callback("junk", what);
+			return;
+		}
+		let idj: i64 = if id < 32000 { id as i64 } else { -1 };
+		self.ctx.ev(json!({"ev":"delivered","s":self.side,"id":idj,"size":enc.len(),"ok":ok,"what":what}));
+	}
+	/// a handler callback for a message of the peer that is not a one-to-one delivery
+	fn callback(&self, role: &str, name: &str) {
+		self.ctx.ev(json!({"ev":"callback","s":self.side,"role":role,"name":name}));
 	}
 	fn take(&self, chan: bool) -> Vec<(PublicKey, Pending)> {
 		let peer = match *self.peer.lock().unwrap() {
@@ -267,55 +675,158 @@ impl BaseMessageHandler for ChanH {
 		Ok(())
 	}
 }
-macro_rules! chan_other {
-	($($name:ident : $ty:ty),* $(,)?) => {
-		$(fn $name(&self, _their_node_id: PublicKey, _msg: $ty) { self.0.other(stringify!($name)); })*
+/// every callback that is handed one message records it as `delivered` (id and content read back
+/// from the message itself)
+macro_rules! record_ref {
+	($($name:ident : $ty:ty => $cls:expr),* $(,)?) => {
+		$(fn $name(&self, _their_node_id: PublicKey, msg: &$ty) { self.0.deliver(stringify!($name), $cls, enc_of(msg)); })*
+	};
+}
+macro_rules! record_val {
+	($($name:ident : $ty:ty => $cls:expr),* $(,)?) => {
+		$(fn $name(&self, _their_node_id: PublicKey, msg: $ty) { self.0.deliver(stringify!($name), $cls, enc_of(&msg)); })*
 	};
 }
 impl ChannelMessageHandler for ChanH {
-	fn handle_channel_ready(&self, _their_node_id: PublicKey, msg: &msgs::ChannelReady) {
-		let mut idb = [0u8; 8];
-		idb.copy_from_slice(&msg.channel_id.0[..8]);
-		let id = u64::from_le_bytes(idb);
-		let ok = *msg == chan_ready(id);
-		self.0.ctx.ev(json!({"ev":"delivered","s":self.0.side,"id":id,"size":CHAN_READY_SIZE,"ok":ok,"what":"channel_ready"}));
+	record_ref! {
+		handle_open_channel: msgs::OpenChannel => "open_channel",
+		handle_open_channel_v2: msgs::OpenChannelV2 => "open_channel_v2",
+		handle_accept_channel: msgs::AcceptChannel => "accept_channel",
+		handle_accept_channel_v2: msgs::AcceptChannelV2 => "accept_channel_v2",
+		handle_funding_created: msgs::FundingCreated => "funding_created",
+		handle_funding_signed: msgs::FundingSigned => "funding_signed",
+		handle_channel_ready: msgs::ChannelReady => "channel_ready",
+		handle_shutdown: msgs::Shutdown => "shutdown",
+		handle_closing_signed: msgs::ClosingSigned => "closing_signed",
+		handle_stfu: msgs::Stfu => "stfu",
+		handle_splice_init: msgs::SpliceInit => "splice_init",
+		handle_splice_ack: msgs::SpliceAck => "splice_ack",
+		handle_splice_locked: msgs::SpliceLocked => "splice_locked",
+		handle_tx_add_input: msgs::TxAddInput => "tx_add_input",
+		handle_tx_add_output: msgs::TxAddOutput => "tx_add_output",
+		handle_tx_remove_input: msgs::TxRemoveInput => "tx_remove_input",
+		handle_tx_remove_output: msgs::TxRemoveOutput => "tx_remove_output",
+		handle_tx_complete: msgs::TxComplete => "tx_complete",
+		handle_tx_signatures: msgs::TxSignatures => "tx_signatures",
+		handle_tx_init_rbf: msgs::TxInitRbf => "tx_init_rbf",
+		handle_tx_ack_rbf: msgs::TxAckRbf => "tx_ack_rbf",
+		handle_tx_abort: msgs::TxAbort => "tx_abort",
+		handle_update_add_htlc: msgs::UpdateAddHTLC => "update_add_htlc",
+		handle_update_fail_htlc: msgs::UpdateFailHTLC => "update_fail_htlc",
+		handle_update_fail_malformed_htlc: msgs::UpdateFailMalformedHTLC => "update_fail_malformed_htlc",
+		handle_commitment_signed: msgs::CommitmentSigned => "commitment_signed",
+		handle_revoke_and_ack: msgs::RevokeAndACK => "revoke_and_ack",
+		handle_update_fee: msgs::UpdateFee => "update_fee",
+		handle_announcement_signatures: msgs::AnnouncementSignatures => "announcement_signatures",
+		handle_channel_reestablish: msgs::ChannelReestablish => "channel_reestablish",
 	}
-	chan_other! {
-		handle_open_channel: &msgs::OpenChannel, handle_open_channel_v2: &msgs::OpenChannelV2,
-		handle_accept_channel: &msgs::AcceptChannel, handle_accept_channel_v2: &msgs::AcceptChannelV2,
-		handle_funding_created: &msgs::FundingCreated, handle_funding_signed: &msgs::FundingSigned,
-		handle_peer_storage: msgs::PeerStorage, handle_peer_storage_retrieval: msgs::PeerStorageRetrieval,
-		handle_shutdown: &msgs::Shutdown, handle_closing_signed: &msgs::ClosingSigned,
-		handle_stfu: &msgs::Stfu, handle_splice_init: &msgs::SpliceInit, handle_splice_ack: &msgs::SpliceAck,
-		handle_splice_locked: &msgs::SpliceLocked, handle_tx_add_input: &msgs::TxAddInput,
-		handle_tx_add_output: &msgs::TxAddOutput, handle_tx_remove_input: &msgs::TxRemoveInput,
-		handle_tx_remove_output: &msgs::TxRemoveOutput, handle_tx_complete: &msgs::TxComplete,
-		handle_tx_signatures: &msgs::TxSignatures, handle_tx_init_rbf: &msgs::TxInitRbf,
-		handle_tx_ack_rbf: &msgs::TxAckRbf, handle_tx_abort: &msgs::TxAbort,
-		handle_update_add_htlc: &msgs::UpdateAddHTLC, handle_update_fulfill_htlc: msgs::UpdateFulfillHTLC,
-		handle_update_fail_htlc: &msgs::UpdateFailHTLC,
-		handle_update_fail_malformed_htlc: &msgs::UpdateFailMalformedHTLC,
-		handle_commitment_signed: &msgs::CommitmentSigned, handle_revoke_and_ack: &msgs::RevokeAndACK,
-		handle_update_fee: &msgs::UpdateFee, handle_announcement_signatures: &msgs::AnnouncementSignatures,
-		handle_channel_reestablish: &msgs::ChannelReestablish,
+	record_val! {
+		handle_peer_storage: msgs::PeerStorage => "peer_storage",
+		handle_peer_storage_retrieval: msgs::PeerStorageRetrieval => "peer_storage_retrieval",
+		handle_update_fulfill_htlc: msgs::UpdateFulfillHTLC => "update_fulfill_htlc",
 	}
 	fn handle_commitment_signed_batch(&self, _n: PublicKey, _c: ChannelId, _b: Vec<msgs::CommitmentSigned>) {
-		self.0.other("handle_commitment_signed_batch");
+		self.0.callback("chan", "handle_commitment_signed_batch");
 	}
-	fn handle_error(&self, _their_node_id: PublicKey, _msg: &msgs::ErrorMessage) {}
-	// gossip: also shown to the channel handler; the raw peer's junk frames may contain one
-	fn handle_channel_update(&self, _their_node_id: PublicKey, _msg: &msgs::ChannelUpdate) {}
+	fn handle_error(&self, _their_node_id: PublicKey, _msg: &msgs::ErrorMessage) {
+		self.0.callback("chan", "handle_error");
+	}
+	// the channel handler's copy of a gossip message (the delivery is recorded by the routing handler)
+	fn handle_channel_update(&self, _their_node_id: PublicKey, _msg: &msgs::ChannelUpdate) {
+		self.0.callback("chan", "handle_channel_update");
+	}
 	fn get_chain_hashes(&self) -> Option<Vec<ChainHash>> {
 		None
 	}
+	// (not a callback for a particular message: not recorded)
 	fn message_received(&self) {}
+}
+
+macro_rules! base_handler {
+	($t:ty) => {
+		impl BaseMessageHandler for $t {
+			fn get_and_clear_pending_msg_events(&self) -> Vec<MessageSendEvent> {
+				Vec::new()
+			}
+			fn peer_disconnected(&self, _their_node_id: PublicKey) {}
+			fn provided_node_features(&self) -> NodeFeatures {
+				NodeFeatures::empty()
+			}
+			fn provided_init_features(&self, _their_node_id: PublicKey) -> InitFeatures {
+				InitFeatures::empty()
+			}
+			fn peer_connected(&self, _their_node_id: PublicKey, _msg: &Init, _inbound: bool) -> Result<(), ()> {
+				Ok(())
+			}
+		}
+	};
+}
+
+/// Routing-message role of the recorder
+struct RouteH(Arc<Handler>);
+base_handler!(RouteH);
+impl RoutingMessageHandler for RouteH {
+	fn handle_node_announcement(&self, _n: Option<PublicKey>, msg: &msgs::NodeAnnouncement) -> Result<bool, LightningError> {
+		self.0.deliver("handle_node_announcement", "node_announcement", enc_of(msg));
+		Ok(false)
+	}
+	fn handle_channel_announcement(&self, _n: Option<PublicKey>, msg: &msgs::ChannelAnnouncement) -> Result<bool, LightningError> {
+		self.0.deliver("handle_channel_announcement", "channel_announcement", enc_of(msg));
+		Ok(false)
+	}
+	fn handle_channel_update(
+		&self, _n: Option<PublicKey>, msg: &msgs::ChannelUpdate,
+	) -> Result<Option<(NodeId, NodeId)>, LightningError> {
+		self.0.deliver("handle_channel_update", "channel_update", enc_of(msg));
+		Ok(None)
+	}
+	fn get_next_channel_announcement(
+		&self, _starting_point: u64,
+	) -> Option<(msgs::ChannelAnnouncement, Option<msgs::ChannelUpdate>, Option<msgs::ChannelUpdate>)> {
+		None
+	}
+	fn get_next_node_announcement(&self, _starting_point: Option<&NodeId>) -> Option<msgs::NodeAnnouncement> {
+		None
+	}
+	fn handle_reply_channel_range(&self, _n: PublicKey, msg: msgs::ReplyChannelRange) -> Result<(), LightningError> {
+		self.0.deliver("handle_reply_channel_range", "reply_channel_range", enc_of(&msg));
+		Ok(())
+	}
+	fn handle_reply_short_channel_ids_end(&self, _n: PublicKey, msg: msgs::ReplyShortChannelIdsEnd) -> Result<(), LightningError> {
+		self.0.deliver("handle_reply_short_channel_ids_end", "reply_short_channel_ids_end", enc_of(&msg));
+		Ok(())
+	}
+	fn handle_query_channel_range(&self, _n: PublicKey, msg: msgs::QueryChannelRange) -> Result<(), LightningError> {
+		self.0.deliver("handle_query_channel_range", "query_channel_range", enc_of(&msg));
+		Ok(())
+	}
+	fn handle_query_short_channel_ids(&self, _n: PublicKey, msg: msgs::QueryShortChannelIds) -> Result<(), LightningError> {
+		self.0.deliver("handle_query_short_channel_ids", "query_short_channel_ids", enc_of(&msg));
+		Ok(())
+	}
+	fn processing_queue_high(&self) -> bool {
+		false
+	}
+}
+
+/// Onion-message role of the recorder
+struct OnionH(Arc<Handler>);
+base_handler!(OnionH);
+impl OnionMessageHandler for OnionH {
+	fn handle_onion_message(&self, _peer_node_id: PublicKey, msg: &msgs::OnionMessage) {
+		self.0.deliver("handle_onion_message", "onion_message", enc_of(msg));
+	}
+	fn next_onion_message_for_peer(&self, _peer_node_id: PublicKey) -> Option<msgs::OnionMessage> {
+		None
+	}
+	fn timer_tick_occurred(&self) {}
 }
 
 type PM = PeerManager<
 	Sock,
 	Arc<ChanH>,
-	IgnoringMessageHandler,
-	IgnoringMessageHandler,
+	Arc<RouteH>,
+	Arc<OnionH>,
 	Arc<NoLog>,
 	Arc<Handler>,
 	Arc<TestNodeSigner>,
@@ -335,8 +846,8 @@ fn make_pm(side: usize, h: &Arc<Handler>, salt: u64) -> PM {
 	PeerManager::new(
 		MessageHandler {
 			chan_handler: Arc::new(ChanH(h.clone())),
-			route_handler: IgnoringMessageHandler {},
-			onion_message_handler: IgnoringMessageHandler {},
+			route_handler: Arc::new(RouteH(h.clone())),
+			onion_message_handler: Arc::new(OnionH(h.clone())),
 			custom_message_handler: h.clone(),
 			send_only_message_handler: IgnoringMessageHandler {},
 		},
@@ -446,6 +957,8 @@ struct Raw {
 	step: u8, // initiator: 0 need act1, 1 wait act2, 2 done ; responder: 0 wait act1, 1 wait act3, 2 done
 	inbuf: Vec<u8>,
 	init_sent: bool,
+	batch_left: usize, // commitment_signed messages still belonging to the batch opened by our start_batch
+	batch_id: u64,
 }
 
 struct Conn {
@@ -461,6 +974,7 @@ struct Conn {
 	rng: StdRng,
 	init_len: usize,
 	stats: Stats,
+	first: Option<(String, usize)>, // class and stream end offset of the raw peer's first message, if sent before its Init
 }
 
 #[derive(Default, Clone)]
@@ -505,7 +1019,7 @@ impl Conn {
 			} else {
 				PeerChannelEncryptor::new_inbound(&&signer)
 			};
-			(s, Raw { enc, signer, step: 0, inbuf: Vec::new(), init_sent: false })
+			(s, Raw { enc, signer, step: 0, inbuf: Vec::new(), init_sent: false, batch_left: 0, batch_id: 0 })
 		});
 		let _ = secp;
 		let mut c = Conn {
@@ -521,6 +1035,7 @@ impl Conn {
 			rng: StdRng::seed_from_u64(seed),
 			init_len,
 			stats: Stats::default(),
+			first: None,
 		};
 		c.ctx.ev(json!({"ev":"reset","mode":c.mode}));
 		c.connect();
@@ -667,7 +1182,8 @@ impl Conn {
 
 	// ------------------------------------------------------------------------------ ops
 
-	fn op_queue(&mut self, d: usize, size: usize, chan: bool) {
+	fn op_queue(&mut self, d: usize, size: usize, kind: &str) {
+		let chan = kind == "chan";
 		let size = if chan { CHAN_READY_SIZE } else { size.max(2).min(65535) };
 		let id = self.next_id;
 		if id >= 32000 {
@@ -675,7 +1191,7 @@ impl Conn {
 		}
 		if self.is_raw(d) {
 			self.next_id += 1;
-			self.raw_send_msg(id, size, chan);
+			self.raw_send_cls(id, size, if chan { "channel_ready" } else { kind });
 			return;
 		}
 		if !self.up[d - 1] {
@@ -685,6 +1201,7 @@ impl Conn {
 		self.next_id += 1;
 		self.stats.queued += 1;
 		self.h[d - 1].pending.lock().unwrap().push_back(Pending { id, size, chan });
+		let _ = kind;
 	}
 
 	fn op_pe(&mut self, s: usize) {
@@ -1032,7 +1549,10 @@ impl Conn {
 	// ------------------------------------------------------------------------- raw peer
 
 	fn raw_push(&mut self, s: usize, kind: &'static str, id: i64, size: usize, bytes: Vec<u8>) {
-		self.ctx.ev(json!({"ev":"raw_send","s":s,"kind":kind,"id":id,"size":size,"len":bytes.len()}));
+		self.raw_push_cls(s, kind, kind, id, size, bytes)
+	}
+	fn raw_push_cls(&mut self, s: usize, kind: &'static str, cls: &str, id: i64, size: usize, bytes: Vec<u8>) {
+		self.ctx.ev(json!({"ev":"raw_send","s":s,"kind":kind,"cls":cls,"id":id,"size":size,"len":bytes.len()}));
 		let dir = &mut self.dir[s - 1];
 		dir.frames.push(Frame { kind, len: bytes.len() });
 		dir.raw_auth.extend_from_slice(&bytes);
@@ -1112,25 +1632,70 @@ impl Conn {
 		self.raw_push(s, "init", -1, size, bytes);
 	}
 
-	fn raw_send_msg(&mut self, id: u64, size: usize, chan: bool) {
+	/// the raw peer sends one message of class `cls` (any wire message type; "custom" = a test
+	/// message of `size` bytes)
+	fn raw_send_cls(&mut self, id: u64, size: usize, cls: &str) {
 		if !self.raw_ready() {
 			self.stats.skipped += 1;
 			return;
 		}
 		let s = self.raw.as_ref().unwrap().0;
-		let enc: Vec<u8> = if chan {
-			let mut v = vec![0u8, 36];
-			v.extend_from_slice(&chan_ready(id).encode());
-			v
+		let init_sent = self.raw.as_ref().unwrap().1.init_sent;
+		// kind "msg"/"chan": the message has exactly one handler callback, "typed": it has none of its own
+		let mut kind: &'static str = if cls == "custom" {
+			"msg"
+		} else if DELIVERABLE.contains(&cls) {
+			"chan"
 		} else {
+			"typed"
+		};
+		let enc: Vec<u8> = if cls == "custom" {
 			let mut v = (CUSTOM_BASE + id as u16).to_be_bytes().to_vec();
 			v.extend_from_slice(&gen_payload(id, size - 2));
 			v
+		} else if cls == "commitment_signed" && init_sent && self.raw.as_ref().unwrap().1.batch_left > 0 {
+			// belongs to the batch announced by our start_batch: handed over with the whole batch
+			let raw = &mut self.raw.as_mut().unwrap().1;
+			raw.batch_left -= 1;
+			kind = "typed";
+			enc_of(&commitment_signed(raw.batch_id))
+		} else {
+			match build_typed(cls, id) {
+				Some(v) => v,
+				None => {
+					self.stats.skipped += 1;
+					return;
+				},
+			}
 		};
+		if cls == "start_batch" && init_sent {
+			// (a start_batch sent before Init is never acted on)
+			let raw = &mut self.raw.as_mut().unwrap().1;
+			if raw.batch_left == 0 {
+				raw.batch_left = 2;
+				raw.batch_id = id;
+			}
+		}
 		let size = enc.len();
 		let bytes = self.raw_encrypt(&enc);
-		self.stats.queued += 1;
-		self.raw_push(s, if chan { "chan" } else { "msg" }, id as i64, size, bytes);
+		if kind != "typed" {
+			self.stats.queued += 1;
+		}
+		let idj = if kind == "typed" { -1 } else { id as i64 };
+		self.raw_push_cls(s, kind, cls, idj, size, bytes);
+		if !init_sent && self.first.is_none() {
+			self.first = Some((cls.to_string(), self.dir[s - 1].raw_auth.len()));
+		}
+	}
+
+	/// class of the raw peer's first message if it was sent before Init and handed to the PeerManager
+	/// completely (driver statistics)
+	fn first_read(&self) -> Option<String> {
+		let s = self.raw.as_ref()?.0;
+		match &self.first {
+			Some((cls, end)) if self.dir[s - 1].given >= *end => Some(cls.clone()),
+			_ => None,
+		}
 	}
 
 	/// a well-formed frame that is not one of our test messages: an empty / one-byte message, or a
@@ -1159,6 +1724,9 @@ impl Conn {
 			v
 		};
 		let size = enc.len();
+		if !short {
+			self.h[2 - s].junk_types.lock().unwrap().insert(ty as u16);
+		}
 		let bytes = self.raw_encrypt(&enc);
 		self.raw_push(s, if short { "short" } else { "junk" }, ty as i64, size, bytes);
 	}
@@ -1188,7 +1756,7 @@ impl Conn {
 		let name = op["op"].as_str().unwrap_or("");
 		let gu = |k: &str| op[k].as_u64().unwrap_or(0) as usize;
 		match name {
-			"queue" => self.op_queue(gu("d"), gu("size"), op["kind"].as_str() == Some("chan")),
+			"queue" => self.op_queue(gu("d"), gu("size"), op["kind"].as_str().unwrap_or("custom")),
 			"pe" => self.op_pe(gu("s")),
 			"budget" => {
 				if op.get("u").is_some() {
@@ -1266,6 +1834,16 @@ fn rnd_size(rng: &mut StdRng) -> usize {
 	}
 }
 
+fn any_class(rng: &mut StdRng) -> &'static str {
+	let n = DELIVERABLE.len() + NODELIVER.len();
+	let k = rng.gen_range(0..n);
+	if k < DELIVERABLE.len() {
+		DELIVERABLE[k]
+	} else {
+		NODELIVER[k - DELIVERABLE.len()]
+	}
+}
+
 fn handshake_ops(rng: &mut StdRng, ops: &mut Vec<Value>, clean_cuts: bool) {
 	// enough alternations to finish the handshake and the Init exchange under any cutting
 	for _ in 0..6 {
@@ -1315,10 +1893,22 @@ fn random_script(rng: &mut StdRng) -> Value {
 	if raw_side != 0 {
 		let pre = rng.gen_bool(0.3);
 		if pre {
-			// a channel / custom message before Init
-			ops.push(json!({"op":"queue","d":raw_side,"size":rnd_size(rng),"kind": if rng.gen_bool(0.5) {"chan"} else {"custom"}}));
+			// messages of any type before Init
+			match rng.gen_range(0..10) {
+				0 => {
+					for cls in ["start_batch", "commitment_signed", "commitment_signed"] {
+						ops.push(json!({"op":"queue","d":raw_side,"size":2,"kind":cls}));
+					}
+				},
+				1..=2 => ops.push(json!({"op":"queue","d":raw_side,"size":rnd_size(rng),"kind":"custom"})),
+				_ => {
+					for _ in 0..rng.gen_range(1..3) {
+						ops.push(json!({"op":"queue","d":raw_side,"size":rnd_size(rng),"kind":any_class(rng)}));
+					}
+				},
+			}
 			if rng.gen_bool(0.5) {
-				ops.push(json!({"op":"read","d":raw_side,"k":-1}));
+				ops.push(json!({"op":"read","d":raw_side,"k": if rng.gen_bool(0.7) { -1 } else { rng.gen_range(1..120) }}));
 			}
 		}
 		ops.push(json!({"op":"raw_init"}));
@@ -1336,7 +1926,15 @@ fn random_script(rng: &mut StdRng) -> Value {
 				let n = if rng.gen_bool(0.2) { rng.gen_range(2..20) } else { 1 };
 				for _ in 0..n {
 					let size = if big { rnd_size(rng) } else { rng.gen_range(2..60) };
-					ops.push(json!({"op":"queue","d":d,"size":size,"kind": if rng.gen_bool(0.1) {"chan"} else {"custom"}}));
+					let kind = if d == raw_side && rng.gen_bool(0.25) {
+						// any message type that has a handler callback
+						DELIVERABLE[rng.gen_range(0..DELIVERABLE.len())]
+					} else if rng.gen_bool(0.1) {
+						"chan"
+					} else {
+						"custom"
+					};
+					ops.push(json!({"op":"queue","d":d,"size":size,"kind":kind}));
 				}
 				if rng.gen_bool(0.8) {
 					ops.push(json!({"op":"pe","s":d}));
@@ -1393,6 +1991,15 @@ fn random_script(rng: &mut StdRng) -> Value {
 				// well-formed frames of other kinds: must never panic the node
 				if rng.gen_bool(0.2) {
 					ops.push(json!({"op":"raw_short","len":rng.gen_range(0..2)}));
+				} else if rng.gen_bool(0.4) {
+					// a well-formed message without a callback of its own; a commitment_signed batch
+					let cls = NODELIVER[rng.gen_range(0..NODELIVER.len())];
+					ops.push(json!({"op":"queue","d":raw_side,"size":2,"kind":cls}));
+					if cls == "start_batch" {
+						for _ in 0..rng.gen_range(1..3) {
+							ops.push(json!({"op":"queue","d":raw_side,"size":2,"kind":"commitment_signed"}));
+						}
+					}
 				} else {
 					let ty = [1u64, 17, 18, 18, 19, 101, 102, 256, 257, 258, 261, 263, 264, 265, 513, 32767][rng.gen_range(0..16)];
 					let len = if rng.gen_bool(0.8) { rng.gen_range(0..300) } else { rng.gen_range(300..65534) };
@@ -1522,7 +2129,12 @@ fn main() {
 		}
 		i += 1;
 	}
+	if args.iter().any(|a| a == "--list-classes") {
+		println!("{}", json!({"deliverable": DELIVERABLE, "nodeliver": NODELIVER}));
+		return;
+	}
 	std::panic::set_hook(Box::new(|_| {}));
+	let class_errors = check_classes();
 	// (driver knowledge only; a panic in here shows up again in every recorded run)
 	let init_len = catch_unwind(calibrate).unwrap_or(40);
 	let mut scripts: Vec<Value> = Vec::new();
@@ -1548,6 +2160,9 @@ fn main() {
 	let mut tot = Stats::default();
 	let mut runs_with_delivery = 0;
 	let mut max_delivered_one_run = 0;
+	let mut first_classes: BTreeSet<String> = BTreeSet::new();
+	let mut delivered_whats: BTreeSet<String> = BTreeSet::new();
+	let mut callbacks = 0usize;
 	let dump = std::env::var("TRANSPORT_DUMP_SCRIPTS").ok();
 	let mut dumpf = dump.map(|p| std::fs::File::create(p).unwrap());
 	for (k, s) in scripts.iter().enumerate() {
@@ -1563,13 +2178,18 @@ fn main() {
 		let mode = s["mode"].as_str().unwrap_or("pm").to_string();
 		let sseed = seed ^ run.wrapping_mul(0x9e3779b97f4a7c15);
 		let mut stats = Stats::default();
+		let mut first_read = None;
 		let r = catch_unwind(AssertUnwindSafe(|| {
 			let mut c = Conn::new(&mode, ctx.clone(), sseed, init_len);
 			for op in s["ops"].as_array().unwrap() {
 				c.run_op(op);
 			}
 			stats = c.stats.clone();
+			first_read = c.first_read();
 		}));
+		if let Some(cls) = first_read {
+			first_classes.insert(cls);
+		}
 		if r.is_err() {
 			panics += 1;
 			log.lock().unwrap().push(json!({"run":run,"ev":"panic"}));
@@ -1579,6 +2199,12 @@ fn main() {
 		for e in evs.iter() {
 			if e["ev"] == "delivered" {
 				delivered += 1;
+				if e["ok"] == true {
+					delivered_whats.insert(e["what"].as_str().unwrap_or("").to_string());
+				}
+			}
+			if e["ev"] == "callback" {
+				callbacks += 1;
 			}
 			tw.emit(e.clone());
 		}
@@ -1600,6 +2226,8 @@ fn main() {
 		json!({"runs": scripts.len(), "events": tw.lines, "panics": panics, "queued": tot.queued,
 			"delivered": tot.delivered, "reads": tot.reads, "tampers": tot.tampers, "partial_writes": tot.partial,
 			"skipped_ops": tot.skipped, "ops": tot.ops, "runs_with_delivery": runs_with_delivery,
-			"max_delivered_one_run": max_delivered_one_run, "init_frame_len": init_len})
+			"max_delivered_one_run": max_delivered_one_run, "init_frame_len": init_len,
+			"first_message_classes_read": first_classes, "delivered_callbacks": delivered_whats,
+			"other_callbacks": callbacks, "class_table_errors": class_errors})
 	);
 }
